@@ -12,16 +12,18 @@ Definition final_info (l : line) : list str * str :=
   (map trim_nl (match l_fix l with Some f => f_texts f | None => l_raw l end), l_text l).
 
 (* one unit case: options, the loaded lines, the events; result = printed AUTOFIX
-   lines, file content afterwards, number of file operations, per-line state *)
+   lines, file content afterwards, number of file operations, per-line state, number of
+   chmod operations (checkExecutable's Custom fixer with autofix = true) *)
 Definition run_script (a s : bool) (only : list str) (file : str)
            (groups : list (list str * str)) (evs : list event) (before : str)
-  : option (list (Z * descr) * str * nat * list (list str * str)) :=
+  : option (list (Z * descr) * str * nat * list (list str * str) * nat) :=
   match run (Opts a s only) (map (fun g => new_pkey (snd g)) groups) evs (init_state file groups) with
   | Panic => None
   | Ok st => Some (map (fun g => (g_lineno g, g_descr g)) (s_log st),
                    disk_after file before None (s_ops st),
                    length (s_ops st),
-                   map final_info (s_store st))
+                   map final_info (s_store st),
+                   length (filter (fun op => match op with OpChmod _ => true | _ => false end) (s_ops st)))
   end.
 
-Extraction "C03_model.ml" consistent consistent_hist phys_lines run_script Z.of_N Nat.add.
+Extraction "C03_model.ml" consistent consistent_hist phys_lines run_script check_executable Z.of_N Nat.add.
